@@ -498,3 +498,117 @@ Theorem C13_src_examples :
      = Some (0, Some Memo.after_fit, 3, 7).
 Proof. exact (conj (proj1 SrcDemo.estimate_demo) (conj (proj2 SrcDemo.estimate_demo) (conj (proj1 SrcDemo.mcmc_demo) (conj (proj2 SrcDemo.mcmc_demo) SrcDemo.scipy_demo)))). Qed.
 Print Assumptions C13_src_examples.
+
+(* ====================================================================== the settings object itself
+   `AlgorithmSettings(name, **kwargs)` (algo/settings.py) and the copy the algorithm works on (algo/base.py), on the model
+   of Api/Settings.v: JSON-like values of any depth; dictionaries as objects in a heap.  The update rule, the special keys,
+   the dynamic defaults and the origin of the default dictionary are re-read from the source (LeaspyGen.GenSettings). *)
+From Leaspy Require Import Api.Settings Api.SettingsProofs Api.SettingsTie.
+From LeaspyGen Require Import GenSettings.
+
+(** Every explicit key wins (when the default is not a dictionary). *)
+Theorem C13_settings_explicit_key_wins :
+  forall (d kw m : Settings.dict) (k : String.string) (v : jv),
+    NoDup (keys kw) -> merge d kw = Done m -> In (k, v) kw -> odict (Settings.dget d k) = false -> Settings.dget m k = Some v.
+Proof. exact explicit_key_wins. Qed.
+Print Assumptions C13_settings_explicit_key_wins.
+
+(** Keys not given keep their default. *)
+Theorem C13_settings_default_key_kept :
+  forall (d kw m : Settings.dict) (k : String.string),
+    NoDup (keys kw) -> merge d kw = Done m -> ~ In k (keys kw) -> Settings.dget m k = Settings.dget d k.
+Proof. exact default_key_kept. Qed.
+Print Assumptions C13_settings_default_key_kept.
+
+(** A nested dictionary given by the user UPDATES the default nested dictionary, by the same rule (any depth). *)
+Theorem C13_settings_nested_key_updates :
+  forall (d kw m : Settings.dict) (k : String.string) (dd kk : Settings.dict),
+    NoDup (keys kw) -> merge d kw = Done m -> In (k, JDict kk) kw -> Settings.dget d k = Some (JDict dd) ->
+    exists mm, merge dd kk = Done mm /\ Settings.dget m k = Some (JDict mm).
+Proof. exact nested_key_updates. Qed.
+Print Assumptions C13_settings_nested_key_updates.
+
+(** Resolution is idempotent: giving the same keyword arguments to the result changes nothing. *)
+Theorem C13_settings_resolution_idempotent :
+  forall (d kw m : Settings.dict), wf (JDict kw) -> merge d kw = Done m -> merge m kw = Done m.
+Proof. exact merge_idempotent. Qed.
+Print Assumptions C13_settings_resolution_idempotent.
+
+(** With replacement instead of the nested update the result differs (default nested keys are lost). *)
+Theorem C13_settings_replacement_refuted :
+  exists d kw m m', merge d kw = Done m /\ mergev_with replace_act (JDict kw) d = Done m' /\ m <> m'.
+Proof. exact replacement_refuted. Qed.
+Print Assumptions C13_settings_replacement_refuted.
+
+(** ANY sequence of writes of the algorithm into its deep copy (top level, nested at any depth, fresh trees as values)
+    leaves what the caller sees from ANY of their values — `settings.parameters`, a nested dictionary — as it was. *)
+Theorem C13_settings_deepcopy_isolates :
+  forall (f : nat) (h : Settings.heap) (s : hval) (h1 : Settings.heap) (r1 : hval) (ws : list hwrite),
+    closed h -> hdeepcopy f h s = Some (h1, r1) ->
+    forall g v, hval_in h v -> hview g (do_hwrites r1 h1 ws) v = hview g h v.
+Proof. exact deepcopy_isolates. Qed.
+Print Assumptions C13_settings_deepcopy_isolates.
+
+(** Hence a second algorithm built from the same settings object after the first one has worked copies the same tree. *)
+Theorem C13_settings_second_algorithm_same_view :
+  forall (f : nat) (h : Settings.heap) (s : hval) (h1 : Settings.heap) (r1 : hval) (ws : list hwrite) (t : jv),
+    closed h -> hval_in h s -> hview f h s = Some t -> hdeepcopy f h s = Some (h1, r1) ->
+    hdeepcopy f (do_hwrites r1 h1 ws) s = Some (halloc t (do_hwrites r1 h1 ws)).
+Proof. exact second_algorithm_same_view. Qed.
+Print Assumptions C13_settings_second_algorithm_same_view.
+
+(** The same with the kind of copy READ FROM `BaseAlgorithm.__init__` today. *)
+Theorem C13_settings_src_isolated :
+  forall (f : nat) (h : Settings.heap) (s : hval) (h1 : Settings.heap) (r1 : hval) (ws : list hwrite),
+    closed h -> hcopy_of gen_settings_copy f h s = Some (h1, r1) ->
+    forall g v, hval_in h v -> hview g (do_hwrites r1 h1 ws) v = hview g h v.
+Proof. exact src_settings_isolated. Qed.
+Print Assumptions C13_settings_src_isolated.
+
+(** The construction assembled from the pieces regenerated from today's source (decision table of the update loop, special
+    keys, dynamic defaults) IS the model's `resolve`; the defaults are parsed afresh at every construction. *)
+Theorem C13_settings_src_resolve :
+  (forall file det kwargs, src_resolve file det kwargs = resolve file det kwargs) /\ gen_defaults_source = FreshLoad.
+Proof. exact (conj src_resolve_is_model gen_defaults_source_is_fresh). Qed.
+Print Assumptions C13_settings_src_resolve.
+
+(** No copy, or a one-level copy: a write of the algorithm shows in the caller's settings (the one-level copy protects the
+    top level only). *)
+Theorem C13_settings_copy_kinds_refuted :
+  closed demo_heap /\ hval_in demo_heap demo_root
+  /\ caller_sees CopyDeep [w_burn; w_anneal] = Some demo_settings
+  /\ caller_sees CopyAlias [w_burn] <> Some demo_settings
+  /\ caller_sees CopyShallow [w_burn] = Some demo_settings
+  /\ caller_sees CopyShallow [w_anneal] <> Some demo_settings.
+Proof. exact copy_kinds_demo. Qed.
+Print Assumptions C13_settings_copy_kinds_refuted.
+
+(** PARTIAL: the heap-level update assigns only into the objects it logs, whatever the table and the sharing.  Missing for
+    "the construction never assigns into an object of the caller": that the logged objects are the freshly parsed defaults
+    (needs distinct keys and an unshared default tree) — evaluated inside Coq on every recorded construction instead
+    (SettingsExec.heap_check: log above the caller's objects, caller's tree unchanged, same sharing as the implementation). *)
+Theorem C13_settings_merge_writes_logged_partial :
+  forall act f h ra na, frame_ok (hmerge_with act f h ra na) h [].
+Proof. exact hmerge_frame. Qed.
+Print Assumptions C13_settings_merge_writes_logged_partial.
+
+(** One default object kept and handed out again: a second construction without arguments sees the first one's keyword
+    arguments (fresh parsing gives the defaults). *)
+Theorem C13_settings_shared_defaults_refuted :
+  shared_demo = Some ([0], Some (JDict [("n_iter"%string, JInt 5)]), Some (JDict [("n_iter"%string, JInt 100)])).
+Proof. exact shared_defaults_refuted. Qed.
+Print Assumptions C13_settings_shared_defaults_refuted.
+
+(** Non-vacuity on a default file shaped like default_mcmc_saem.json. *)
+Theorem C13_settings_examples :
+  option_map s_params (match resolve demo_file false demo_kwargs with Done s => Some s | _ => None end) = Some demo_params
+  /\ wf (JDict demo_kwargs)
+  /\ (match resolve demo_file false demo_kwargs with Done s => ctor_view true true s | _ => Failed end) = Done demo_params
+  /\ (match resolve demo_file false [] with Done s => option_map (fun p => Settings.dget p "n_burn_in_iter"%string)
+                                                         (match ctor_view true true s with Done p => Some p | _ => None end)
+       | _ => None end) = Some (Some (JInt 50))
+  /\ (match resolve demo_file false demo_kwargs with
+      | Done s => same_outcome_b (load demo_file false (save s)) s | _ => false end) = true
+  /\ resolve demo_file false [("annealing"%string, JInt 3)] = Refused.
+Proof. exact resolve_demo. Qed.
+Print Assumptions C13_settings_examples.
